@@ -14,7 +14,7 @@ import core
 PINF = 0
 
 
-def mk(points, dim):
+def mk(points, dim, sc=1.0):
     from tracklib.core.track import Track
     from tracklib.core.obs import Obs
     from tracklib.core.obs_coords import ENUCoords
@@ -22,11 +22,11 @@ def mk(points, dim):
     obs = []
     for k, pt in enumerate(points):
         if dim == 1:
-            c = ENUCoords(float(k), float(-k), float(pt[0]))          # dim 1 uses the U component only
+            c = ENUCoords(float(k), float(-k), float(pt[0]) * sc)          # dim 1 uses the U component only
         elif dim == 2:
-            c = ENUCoords(float(pt[0]), float(pt[1]), float(7 * k))  # z must be ignored
+            c = ENUCoords(float(pt[0]) * sc, float(pt[1]) * sc, float(7 * k))  # z must be ignored
         else:
-            c = ENUCoords(float(pt[0]), float(pt[1]), float(pt[2]))
+            c = ENUCoords(float(pt[0]) * sc, float(pt[1]) * sc, float(pt[2]) * sc)
         obs.append(Obs(c, ObsTime()))
     return Track(obs)
 
@@ -48,15 +48,19 @@ def call(a, b, dim, p, how, brute):
     e = {"ev": "match", "how": how, "a": [list(x) for x in a], "b": [list(x) for x in b], "p": p, "dim": dim, "brute": brute,
          "raised": False, "lat": True, "links": [], "nb": 0, "score": 0}
     pp = float("inf") if p == PINF else p
+    # the property does not depend on the unit of length: a quarter of the calls are made on coordinates multiplied by 2^-40
+    # (exact; every cost is then far below 1e-9 and still exact) and the score scaled back
+    sc = 2.0 ** -40 if (len(a) + 3 * len(b) + dim + int(sum(sum(x) for x in a))) % 4 == 0 else 1.0
+    e["scale"] = "2^-40" if sc != 1.0 else "1"
     try:
         with core.quiet():
-            t1, t2 = mk(a, dim), mk(b, dim)
+            t1, t2 = mk(a, dim, sc), mk(b, dim, sc)
             if a == b and (len(a) + dim) % 2 == 0:
                 t2 = t1                                   # aliasing: the same Track object on both sides
             # history (every third call): track1 is itself the result of an earlier matching (with a reversed copy of
             # track2): it already carries the 'pair', 'diff' ... features the new matching has to overwrite
             if (len(a) + 2 * len(b) + dim + (0 if p == PINF else p)) % 3 == 0 and how != "compare":
-                t1 = cmp.match(t1, mk(list(reversed(b)) + [b[0]], dim), mode=cmp.MODE_MATCHING_DTW, p=1, dim=dim, verbose=False)
+                t1 = cmp.match(t1, mk(list(reversed(b)) + [b[0]], dim, sc), mode=cmp.MODE_MATCHING_DTW, p=1, dim=dim, verbose=False)
                 e["hist"] = "track1 is the result of an earlier matching"
             if how == "compare":
                 e["ev"] = "score"
@@ -76,7 +80,7 @@ def call(a, b, dim, p, how, brute):
                     for i in m["pair", j]:
                         links.append([int(i) + 1, j + 1])
                 e["links"] = links
-        si = to_int(s)
+        si = to_int(s / sc ** (1 if p == PINF or how == "compare" else p))
         if si is None:
             e["lat"] = False
             e["raw"] = repr(s)
